@@ -4,6 +4,9 @@ Model of (pytype/io.py) `check_or_generate_pyi`, (pytype/pyc/compiler.py) `Compi
 (pytype/pyc/compile_bytecode.py) `compile_src_to_pyc`'s error branch and (pytype/errors/errors.py)
 `Error.__init__`'s `line or 0`.  Core Lean only.
 
+`load_pytd.create_loader(options)` runs before the `try:` — whatever it raises (a `UsageError` when the
+typeshed cannot be initialised) propagates unconditionally and is not a `StageResult`.
+
 What is *not* here: the analysis itself (`vm.run_program`, `CallTracer.analyze`, ...).  It appears only as
 "the stage that raised, and what it raised". -/
 namespace PytypeModel.Shell
